@@ -1,7 +1,8 @@
 (** Extraction of the executable models and checkers to OCaml.
     Only ExtrOcamlBasic and ExtrOcamlString are used; numbers stay Coq datatypes. *)
 From Coq Require Import Extraction ExtrOcamlBasic ExtrOcamlString.
-From Parol Require Import Runtime.Levenshtein.
+From Parol Require Import Runtime.Levenshtein Runtime.LevFaithful Runtime.DfaEval.
 Extraction Language OCaml.
 Set Extraction Optimize.
-Extraction "model.ml" Levenshtein.lev_check Levenshtein.dist.
+Extraction "model.ml" Levenshtein.lev_check Levenshtein.dist LevFaithful.lev
+  DfaEval.eval_check DfaEval.sortedb DfaEval.wfd DfaEval.eval DfaEval.eval_old DfaEval.run.
